@@ -72,6 +72,12 @@ CHECKS['C11'] = ('deviation-bounded space of abstract peptides (tagged residue m
                  '0<=i<=j<=n and slice-of-slice, split, through method (inplace False/True) and string function; model '
                  'operations on the abstract peptide + inverse/identity laws + mass and unit-multiset invariants',
                  'DESIGN.md section 4 / C11')
+CHECKS['C20'] = ('deviation-bounded space (<=3 of 11 slots, several modifications per slot) of abstract peptides; per state: '
+                 'add_mods(strip_mods,get_mods), pop_mods, create_annotation(**dict()), copy()/dict() independence under deep '
+                 'mutation in both directions, strip, construction through add_* calls in every order of the set slots, '
+                 'and every single-field perturbation of the abstract peptide (value, multiplier, drop, duplicate, count '
+                 'change, move, interval bound/flag, charge, adducts, label, rule, residue) for ==/!= in both directions',
+                 'DESIGN.md section 4 / C20')
 NOT_APPLICABLE = {}
 
 
